@@ -128,7 +128,11 @@ func wireCmd(args []string) {
 		copyFile(idxFile, cp)
 		defer os.Remove(cp)
 		var err error
-		ix, err = updog.OpenIndex(cp, updog.WithCache(updog.NewLRUCache(1<<20)))
+		opts := []updog.IndexOption{updog.WithCache(updog.NewLRUCache(1 << 20))}
+		if len(args) > 3 && args[3] == "preload" {
+			opts = append(opts, updog.WithPreloadedData())
+		}
+		ix, err = updog.OpenIndex(cp, opts...)
 		if err != nil {
 			fatal("open index: %v", err)
 		}
